@@ -21,44 +21,32 @@
                             removals, then insertions — and because a zero-cost Match prints the to-node / the cost gate
                             prints the from-node, which are node-equal but, inside mappings, possibly ordered
                             differently.)
+    hasMark r               some character of the rendering is not plain
 
-  FULL STATEMENTS (for all options o, oracles orc, trees f t built from JSON documents):
-    (1) project_from : ∃ v, ValSim v (treeVal f) ∧ dropCommas (tokens (projFrom (render f t (edits o orc [] [] f t)))) = v.toks
-    (2) project_to   : ∃ v, ValSim v (treeVal t) ∧ dropCommas (tokens (projTo   (render f t (edits o orc [] [] f t)))) = v.toks
-        (for documents without mappings `ValSim` only relates node-equal trees, and the statement is the literal
-         `dropCommas (tokens (projFrom …)) = dropCommas (tokens (printJson f))` whenever no zero-cost match is involved)
-    (3) marks_iff    : hasMark (render f t (edits o orc [] [] f t)) = true ↔ f.eq t = false
-
-  PROVED HERE
-    `project_from_wf`, `project_to_wf`, `projection_is_value`: (1), (2) and "the projection is a complete JSON value"
-        for EVERY script that is a well-formed edit of f into t (`ScriptWellFormed`, = `Render.WF` + the root cost
-        gate), by induction over the script: leaves (`json.dumps` text), strings (`print_StringEdit`'s remove/add
-        buffers, `proj_strOut`), key/value pairs (cost gates), sequences and mappings (`seq_lemma`: under the
-        to_remove/to_insert delimiter counters of `print_SequenceNode` two surviving items are always separated by
-        a surviving comma or the start symbol — the invariant `Inv`).
-    `project_from_partial`, `project_to_partial`: (1), (2) for `edits o orc [] [] f t` with the hypothesis
-        `script_wellformed : ScriptWellFormed f t (edits …)`.
-        MISSING for the full statement: `ScriptWellFormed f t (edits o orc [] [] f t)` for all trees with distinct
-        keys, i.e. the L2 accounting facts in the form `Render.WF` uses them (C01 `script_accounts` gives the index
-        part: from-indices = 0..n-1 in order for `ed`/`fixed`/`str`, permutations for `ms`/`fk`; still to be added:
-        a zero-cost Match relates node-equal nodes, `kvpScript`'s key edit is a Match/StringEdit whose cost is 0 only
-        for equal keys, C02 `zero_cost_iff_eq` for the value gate).
-    `project_from_checked`, `project_to_checked`: the same with the DECIDABLE hypothesis `scriptOKB f t (edits …) = true`
-        (`Render.wfB_sound`: the executable check implies `ScriptWellFormed`); the Lean driver evaluates `scriptOKB`
-        on every case of the `render` stream (field "wf" of the model's answer must be true), so the hypothesis is
-        validated on every generated input.
-    `no_marks_of_zero_cost_leaf`, `marks_of_change`: the two easy halves of (3) at the root.
-    `marks_iff_partial`: (3) with the two L2 facts as named hypotheses (`zero_cost_iff_eq` = C02, and
-        `positive_cost_shows`: an edit of positive cost renders at least one marked character — this needs the cost
-        bookkeeping C03 `reported_eq_sum` and "a removed/inserted node prints at least one character"; not done).
+  PROVED, for all options `o`, all oracles (assignment-solver answers) `orc`, all trees whose mappings have distinct
+  keys (`Tree.KeysDistinct`, what `build` produces) and whose float leaves carry a literal repr (`litOK`):
+    (1) `project_from` : ∃ v, ValSim v (treeVal f) ∧ dropCommas (tokens (projFrom (render f t (edits o orc [] [] f t)))) = v.toks
+    (2) `project_to`   : ∃ v, ValSim v (treeVal t) ∧ dropCommas (tokens (projTo   (render f t (edits o orc [] [] f t)))) = v.toks
+        each together with `dropCommas (tokens (printJson f)) = (treeVal f).toks`;
+    (3) `marks_iff`    : hasMark (render f t (edits o orc [] [] f t)) = true ↔ f.eq t = false
+    and for whole documents (`diffDocs`, `Doc.distinctKeys`, `Doc.floatsOK`): `project_from_docs`, `project_to_docs`,
+    `marks_iff_docs` (… ↔ the documents differ as data, `Doc.dataEq`).
+  How: `Render.main` (Proofs/RenderMain: every well-formed script projects correctly — leaves, `print_StringEdit`'s
+  buffers, key/value pairs behind their cost gates, and `seq_lemma`: under the to_remove/to_insert delimiter counters of
+  `print_SequenceNode` two surviving items are always separated by a surviving comma or the start symbol),
+  `Render.script_wellformed` (Proofs/RenderEdits: the engine's script is well formed — from C01's index accounting
+  `fixedScript_idx`/`edScript_idx`/`msScript_fromIdx`/`msScript_toIdx`/`fkScript_*`/`strSubs_idx`, the unfolding lemmas
+  of `edits`, the trimmed prefix/suffix of EditDistance being node-equal, and C02 `zero_cost_iff_eq` for the cost
+  gates), `Render.positive_cost_shows` (Proofs/RenderMarks: with C03 `reported_eq_sum` an edit of positive cost has a
+  sub-edit of positive cost, down to a Match/Replace (arrow), a Remove/Insert (every node prints ≥ 1 character) or a
+  string edit between different strings) and `Render.zero_cost_is_match`.
+  Also kept: `project_from_wf` / `project_to_wf` / `projection_is_value` for EVERY well-formed script, and the
+  `_checked` variants with the decidable hypothesis `scriptOKB … = true` that the driver evaluates on every stream case.
 -/
-import GtModel.Proofs.RenderCheck
+import GtModel.Proofs.RenderMarks
 
 namespace GtModel.C06
 open GtModel GtModel.Render
-
-/-- the rendering carries a change mark -/
-def hasMark (r : Out) : Bool := r.any fun p => p.2 != .plain
 
 /-- `s` is a well-formed edit of `f` into `t` (see `Render.WF`), printed behind the root cost gate -/
 def ScriptWellFormed (f t : Tree) (s : Script) : Prop :=
@@ -88,49 +76,53 @@ theorem projection_is_value (f t : Tree) (s : Script) (hf : litOK f = true) (ht 
     ClosedT (projFrom (render f t s)) ∧ ClosedT (projTo (render f t s)) :=
   ⟨(render_spec f t s hf ht hs.1 hs.2 true).1, (render_spec f t s hf ht hs.1 hs.2 false).1⟩
 
-/-- (1) for the script the engine computes, given that it is well formed -/
-theorem project_from_partial (o : Opts) (orc : Oracle) (f t : Tree) (hf : litOK f = true) (ht : litOK t = true)
-    (script_wellformed : ScriptWellFormed f t (edits o orc [] [] f t)) :
+/-- the script the engine computes is a well-formed edit, for all options, oracles, paths and trees with distinct keys -/
+theorem script_wellformed (o : Opts) (orc : Oracle) (fp tp : List Nat) (f t : Tree)
+    (hf : f.KeysDistinct) (ht : t.KeysDistinct) : ScriptWellFormed f t (edits o orc fp tp f t) :=
+  Render.script_wellformed o orc fp tp f t hf ht
+
+/-- (1) deleting everything inserted leaves the first document -/
+theorem project_from (o : Opts) (orc : Oracle) (f t : Tree) (hf : f.KeysDistinct) (ht : t.KeysDistinct)
+    (hlf : litOK f = true) (hlt : litOK t = true) :
     ∃ v, ValSim v (treeVal f) ∧
       dropCommas (tokens (projFrom (render f t (edits o orc [] [] f t)))) = v.toks ∧
       dropCommas (tokens (printJson f)) = (treeVal f).toks := by
-  obtain ⟨v, hv, hT⟩ := project_from_wf f t _ hf ht script_wellformed
-  exact ⟨v, hv, hT, printJson_toks f hf⟩
+  obtain ⟨v, hv, hT⟩ := project_from_wf f t _ hlf hlt (script_wellformed o orc [] [] f t hf ht)
+  exact ⟨v, hv, hT, printJson_toks f hlf⟩
 
-/-- (2) for the script the engine computes, given that it is well formed -/
-theorem project_to_partial (o : Opts) (orc : Oracle) (f t : Tree) (hf : litOK f = true) (ht : litOK t = true)
-    (script_wellformed : ScriptWellFormed f t (edits o orc [] [] f t)) :
+/-- (2) deleting everything removed leaves the second document -/
+theorem project_to (o : Opts) (orc : Oracle) (f t : Tree) (hf : f.KeysDistinct) (ht : t.KeysDistinct)
+    (hlf : litOK f = true) (hlt : litOK t = true) :
     ∃ v, ValSim v (treeVal t) ∧
       dropCommas (tokens (projTo (render f t (edits o orc [] [] f t)))) = v.toks ∧
       dropCommas (tokens (printJson t)) = (treeVal t).toks := by
-  obtain ⟨v, hv, hT⟩ := project_to_wf f t _ hf ht script_wellformed
-  exact ⟨v, hv, hT, printJson_toks t ht⟩
+  obtain ⟨v, hv, hT⟩ := project_to_wf f t _ hlf hlt (script_wellformed o orc [] [] f t hf ht)
+  exact ⟨v, hv, hT, printJson_toks t hlt⟩
 
-/-- (1) and (2) for every input on which the executable check `scriptOKB` passes.  The driver evaluates the check
-    (and `litOK`) on every case of the `render` stream: it passed on every generated pair of documents, for every
-    option set. -/
+/-- (1) and (2) for every input on which the executable check `scriptOKB` passes (no hypothesis on keys).  The driver
+    evaluates the check (and `litOK`) on every case of the `render` stream. -/
 theorem project_from_checked (o : Opts) (orc : Oracle) (f t : Tree) (hf : litOK f = true) (ht : litOK t = true)
     (hcheck : scriptOKB f t (edits o orc [] [] f t) = true) :
     ∃ v, ValSim v (treeVal f) ∧
       dropCommas (tokens (projFrom (render f t (edits o orc [] [] f t)))) = v.toks ∧
-      dropCommas (tokens (printJson f)) = (treeVal f).toks :=
-  project_from_partial o orc f t hf ht (scriptOKB_sound f t _ hcheck)
+      dropCommas (tokens (printJson f)) = (treeVal f).toks := by
+  obtain ⟨v, hv, hT⟩ := project_from_wf f t _ hf ht (scriptOKB_sound f t _ hcheck)
+  exact ⟨v, hv, hT, printJson_toks f hf⟩
 
 theorem project_to_checked (o : Opts) (orc : Oracle) (f t : Tree) (hf : litOK f = true) (ht : litOK t = true)
     (hcheck : scriptOKB f t (edits o orc [] [] f t) = true) :
     ∃ v, ValSim v (treeVal t) ∧
       dropCommas (tokens (projTo (render f t (edits o orc [] [] f t)))) = v.toks ∧
-      dropCommas (tokens (printJson t)) = (treeVal t).toks :=
-  project_to_partial o orc f t hf ht (scriptOKB_sound f t _ hcheck)
+      dropCommas (tokens (printJson t)) = (treeVal t).toks := by
+  obtain ⟨v, hv, hT⟩ := project_to_wf f t _ hf ht (scriptOKB_sound f t _ hcheck)
+  exact ⟨v, hv, hT, printJson_toks t ht⟩
+
+/-- non-vacuity of the tree-level hypotheses: a nested tree with a mapping, a float and a string -/
+example :
+    let f : Tree := .list [.dict [([97], .leaf (.float [49, 46, 53])), ([98], .leaf (.str [34, 92]))], .leaf .null]
+    f.KeysDistinct ∧ litOK f = true := by decide
 
 /-! ### marks -/
-
-theorem hasMark_append (a b : Out) : hasMark (a ++ b) = (hasMark a || hasMark b) := by simp [hasMark]
-
-theorem hasMark_plain (x : Item) : hasMark (x.plain .plain) = false := by
-  simp [hasMark, Item.plain, mk]
-
-theorem hasMark_arrow : hasMark arrowOut = true := by decide
 
 /-- an edit without sub-edits whose cost is 0 is rendered as the unmarked from-node -/
 theorem no_marks_of_zero_cost_leaf (f t : Tree) (s : Script) (h0 : s.cost = 0) (hk : isCompound s.kind = false) :
@@ -149,23 +141,57 @@ theorem marks_of_change (f t : Tree) (k : Kind) (fi ti : Ix) (c : Nat) (subs : L
   rcases hk with rfl | rfl <;>
     simp [render, Script.cost, hc, renderEdit, hasMark_append, hasMark_arrow]
 
-/-- (3), given the two L2 facts it rests on -/
-theorem marks_iff_partial (o : Opts) (orc : Oracle) (f t : Tree)
-    (zero_cost_iff_eq : (edits o orc [] [] f t).cost = 0 ↔ f.eq t = true)
-    (zero_cost_is_match : (edits o orc [] [] f t).cost = 0 → isCompound (edits o orc [] [] f t).kind = false)
-    (positive_cost_shows : (edits o orc [] [] f t).cost > 0 →
-      hasMark (renderEdit true (.tree f) (.tree t) (edits o orc [] [] f t)) = true) :
+/-- (3) the rendering carries a change mark exactly when the two nodes are not equal -/
+theorem marks_iff (o : Opts) (orc : Oracle) (f t : Tree) (hf : f.KeysDistinct) (ht : t.KeysDistinct)
+    (hlf : litOK f = true) (hlt : litOK t = true) :
     hasMark (render f t (edits o orc [] [] f t)) = true ↔ f.eq t = false := by
+  have hz := C02.zero_cost_iff_eq o orc [] [] f t (wf_of_kd hf) (wf_of_kd ht)
   by_cases h0 : (edits o orc [] [] f t).cost = 0
-  · have heq := zero_cost_iff_eq.1 h0
-    rw [no_marks_of_zero_cost_leaf f t _ h0 (zero_cost_is_match h0), heq]
+  · have heq := hz.1 h0
+    rw [no_marks_of_zero_cost_leaf f t _ h0 (zero_cost_is_match o orc [] [] f t hf ht h0), heq]
     simp
   · have hpos : (edits o orc [] [] f t).cost > 0 := by omega
     have hne : f.eq t = false := by
       cases h : f.eq t with
       | false => rfl
-      | true => exact absurd (zero_cost_iff_eq.2 h) h0
-    simp only [render, hpos, decide_true, positive_cost_shows hpos, hne]
+      | true => exact absurd (hz.2 h) h0
+    simp only [render, hpos, decide_true, positive_cost_shows o orc [] [] f t hf ht hlf hlt hpos, hne]
+
+/-! ### whole documents -/
+
+theorem build_kd' (o : Opts) (d : Doc) (h : d.distinctKeys = true) : (build o d).KeysDistinct := by
+  have := C02.build_WF o d h
+  rw [wf_eq_kd] at this
+  exact this
+
+/-- (1) for whole documents: objects with distinct keys (what every JSON parser delivers) -/
+theorem project_from_docs (o : Opts) (orc : Oracle) (a b : Doc) (ha : a.distinctKeys = true) (hb : b.distinctKeys = true)
+    (hfa : a.floatsOK = true) (hfb : b.floatsOK = true) :
+    ∃ v, ValSim v (treeVal (build o a)) ∧
+      dropCommas (tokens (projFrom (render (build o a) (build o b) (diffDocs o orc a b)))) = v.toks ∧
+      dropCommas (tokens (printJson (build o a))) = (treeVal (build o a)).toks :=
+  project_from o orc _ _ (build_kd' o a ha) (build_kd' o b hb) (build_litOK o a hfa) (build_litOK o b hfb)
+
+/-- (2) for whole documents -/
+theorem project_to_docs (o : Opts) (orc : Oracle) (a b : Doc) (ha : a.distinctKeys = true) (hb : b.distinctKeys = true)
+    (hfa : a.floatsOK = true) (hfb : b.floatsOK = true) :
+    ∃ v, ValSim v (treeVal (build o b)) ∧
+      dropCommas (tokens (projTo (render (build o a) (build o b) (diffDocs o orc a b)))) = v.toks ∧
+      dropCommas (tokens (printJson (build o b))) = (treeVal (build o b)).toks :=
+  project_to o orc _ _ (build_kd' o a ha) (build_kd' o b hb) (build_litOK o a hfa) (build_litOK o b hfb)
+
+/-- (3) for whole documents: the rendering carries a change mark exactly when the documents differ as data -/
+theorem marks_iff_docs (o : Opts) (orc : Oracle) (a b : Doc) (ha : a.distinctKeys = true) (hb : b.distinctKeys = true)
+    (hfa : a.floatsOK = true) (hfb : b.floatsOK = true) :
+    hasMark (render (build o a) (build o b) (diffDocs o orc a b)) = true ↔ Doc.dataEq a b = false := by
+  rw [← C02.eq_iff_dataEq o a b ha hb]
+  exact marks_iff o orc _ _ (build_kd' o a ha) (build_kd' o b hb) (build_litOK o a hfa) (build_litOK o b hfb)
+
+/-- non-vacuity of the document-level hypotheses -/
+example : (Doc.obj [([98], .list [.scalar (.int 1), .scalar (.float [49, 46, 53]), .obj [([97], .scalar .null)]]),
+    ([97], .scalar (.bool true))]).distinctKeys = true ∧
+    (Doc.obj [([98], .list [.scalar (.int 1), .scalar (.float [49, 46, 53]), .obj [([97], .scalar .null)]]),
+    ([97], .scalar (.bool true))]).floatsOK = true := by decide
 
 /-! ### non-vacuity: concrete well-formed scripts, and what the theorems say about them -/
 
